@@ -308,7 +308,7 @@ def _amen_solve_python(A, b, nswp=22, x0=None, eps=1e-10, rmax=1024, max_full=50
     x_cores = x.cores.copy()
     rx = x.R.copy()
     # check if rmax is a list
-    if isinstance(rmax, int):
+    if isinstance(rmax, (int, np.integer)):
         rmax = [1] + (d-1) * [rmax] + [1]
 
     # z cores
